@@ -7,6 +7,29 @@ HERE = os.path.dirname(os.path.dirname(os.path.abspath(__file__)))
 
 # property -> (technique, level text, level note, design ref)
 CLAIMED = {
+    "C11": (
+        "parser <-> writer agreement analysis: the jinja2 templates are parsed (never rendered) "
+        "into macros, import aliases and typed outputs; receiver classes of every template "
+        "attribute access are inferred from the Python annotations through loops, set "
+        "statements and macro calls (fixpoint over call sites); the from_et parsers are scanned "
+        "by def-use for the XML names feeding each dataclass field; set comparisons between "
+        "the two sides, plus escaping, DOCREF, guard/body, loader-table and memoisation rules",
+        "Decides, for every one of about 950 (class, parsed field) pairs, that some template "
+        "writes the field from an object of that class; that every XML name a parser reads or "
+        "dispatches on is emitted; that an element wrapping a field is paired with the field "
+        "the parser stores it in; that every template parses and every alias.macro() call, "
+        "global, name and attribute it uses exists; that free-text values are escaped and "
+        "make_xml_attrib escapes; that ID-REFs keep DOCREF/DOCTYPE; that guarded blocks write "
+        "what they test and no write depends on the value of another parsed attribute; that "
+        "the three loaders classify file names by the same tests; that the writer memoises "
+        "nothing across databases.",
+        "Not decided: structural equality of a reloaded database, byte-identical rewrites, "
+        "independence of the file order (runtime quantities). Branch-insensitive: a field "
+        "written only in one type branch of a macro counts as written. Trusted: jinja2's "
+        "parser, the annotation-driven typing, the tables DERIVED / NO_ESCAPE / IDENT_SUFFIX "
+        "(each entry with a reason). Known findings: 59 ID-REF sites written without "
+        "DOCREF/DOCTYPE (repair blocked by the output pinned in tests/test_singleecujob.py).",
+        "DESIGN.md section 3, C11"),
     "C10": (
         "whole-package reference-coverage analysis: type-driven computation, from the dataclass "
         "annotations, of which sub-objects transitively hold IDs / ODXLINK references / SNREFs, "
